@@ -52,6 +52,14 @@ spec fn cmp_spec(f: SortFormat, a: Seq<char>, b: Seq<char>) -> Result<Ordering, 
     }
 }
 
+/// C10: "1-based byte columns delimit exactly the offending key": the last column of a key that
+/// occupies bytes [start, end) of the line is `end`; an EMPTY key (a pattern that matches the empty
+/// string on a non-blank line) occupies no byte, its range is the one column at which it was found
+/// -- never a column 0 and never an end before the start.
+spec fn key_end_col(start: int, end: int) -> int {
+    if end > start { end } else { start + 1 }
+}
+
 /// (key text, 1-based first byte column within the line, 1-based last byte column)
 spec fn key_info(re: Option<Result<regex::Regex, regex::Error>>, line: Seq<char>) -> Option<(Seq<char>, int, int)> {
     match re {
@@ -63,8 +71,8 @@ spec fn key_info(re: Option<Result<regex::Regex, regex::Error>>, line: Seq<char>
             if is_blank(line) || !regex::re_is_match(r, line) { None }
             else {
                 match regex::re_group_named(r, line, "value"@) {
-                    Some(m) => Some((m.text, (m.start + 1) as int, m.end as int)),
-                    None => match regex::re_group(r, line, 0) { Some(m) => Some((m.text, (m.start + 1) as int, m.end as int)), None => None },
+                    Some(m) => Some((m.text, (m.start + 1) as int, key_end_col(m.start as int, m.end as int))),
+                    None => match regex::re_group(r, line, 0) { Some(m) => Some((m.text, (m.start + 1) as int, key_end_col(m.start as int, m.end as int))), None => None },
                 }
             },
         Some(Err(_)) => None,
